@@ -159,7 +159,241 @@ def asis_job(ctx, d):
     return d
 
 
+HOOK_KEEP = {"Cfg", "Cmd", "CheckCall", "TgtCall", "Ret", "End"}
+
+
+def convert_repo_trace(evs):
+    """One message recorded by the hooks of internal/msgpipeline -> (events in the vocabulary of
+    CheckRunnerTrace.tla, None) or (None, reason it is outside the model's alphabet)."""
+    begin = next((e for e in evs if e["e"] == "Begin"), None)
+    if begin is None or evs[0]["e"] != "Begin":
+        return None, "no defined start"
+    if begin.get("dmarc"):
+        return None, "dmarc enabled (auth-result driven policy is C07's)"
+    if begin.get("quarantined"):
+        return None, "message already flagged at Start"
+    srcs = [e for e in evs if e["e"] == "Src"]
+    routes = [e for e in evs if e["e"] == "Route"]
+    has_mods = bool(begin.get("mods") or any(e.get("mods") for e in srcs + routes))
+    if any(e.get("reject") for e in srcs + routes):
+        return None, "reject directive in the selected block"
+    if any(e["e"] == "CheckInitErr" for e in evs):
+        return None, "check state initialisation failed"
+    if any(e["e"] == "TgtCall" and e["res"] != "ok" for e in evs):
+        return None, "target failure"
+    end = next((i for i, e in enumerate(evs) if e["e"] == "End"), len(evs))
+    evs = evs[:end]
+    # a refusal that is routing's business (C04), not a check's: the sender was refused before a source
+    # block was selected, or a recipient before a destination block was, and no check said reject
+    cmd_rej, cmd_routed, n = {}, {}, 0
+    for e in evs:
+        if e["e"] == "Cmd":
+            n += 1
+        elif e["e"] == "CheckCall" and e["v"] == "reject":
+            cmd_rej[n] = True
+        elif e["e"] == "Route":
+            cmd_routed[n] = True
+        elif e["e"] == "Ret" and e["res"] != "ok" and not cmd_rej.get(n):
+            if e["op"] == "start" and not any(x.get("selected") for x in srcs):
+                return None, "sender refused by routing (reject directive or invalid address)"
+            if e["op"] == "rcpt" and not cmd_routed.get(n):
+                return None, "recipient refused by routing (invalid address)"
+            if has_mods:
+                return None, "command refused by a modifier"
+    # modifiers that neither fail nor rewrite a recipient are invisible at the observed boundaries
+    rcpts_given = set(e["r"] for e in evs if e["e"] == "Cmd" and e["op"] == "rcpt")
+    if has_mods and (any(e["eff"] != e["r"] for e in routes) or
+                     any(e["e"] == "TgtCall" and e["op"] == "rcpt" and e["arg"] not in rcpts_given for e in evs)):
+        return None, "modifiers rewrite a recipient"
+    # blocks, checks, targets, recipients in order of first appearance
+    blocks, tgt_of = [], {}
+    for e in routes:
+        if e["blk"] not in blocks:
+            blocks.append(e["blk"])
+            if len(e["targets"]) != 1:
+                return None, "destination block with %d targets" % len(e["targets"])
+            tgt_of[e["blk"]] = e["targets"][0]
+    if len(blocks) > 2:
+        return None, "more than 2 destination blocks"
+    if len(set(tgt_of.values())) != len(tgt_of):
+        return None, "one target shared by two destination blocks"
+    bname = {b: "D%d" % (i + 1) for i, b in enumerate(blocks)}
+    tname = {tgt_of[b]: "T%d" % (i + 1) for i, b in enumerate(blocks)}
+    scopes = [("G", begin["checks"])] + [("S", e["checks"]) for e in srcs[:1]]
+    seen_b = set()
+    for e in routes:
+        if e["blk"] not in seen_b:
+            seen_b.add(e["blk"])
+            scopes.append((bname[e["blk"]], e["checks"]))
+    cname, place = {}, {}
+    for sc, lst in scopes:
+        if len(set(lst)) != len(lst):
+            return None, "a check listed twice in one block"
+        for c in lst:
+            if c not in cname:
+                cname[c] = "c%d" % (len(cname) + 1)
+            place.setdefault(cname[c], []).append(sc)
+    if len(cname) > 4:
+        return None, "more than 4 checks"
+    rname, order = {}, []
+    for e in evs:
+        if e["e"] == "Cmd" and e["op"] == "rcpt":
+            if e["r"] in rname:
+                return None, "a recipient supplied twice"
+            rname[e["r"]] = "r%d" % (len(rname) + 1)
+            order.append(e["r"])
+    if len(rname) > 3:
+        return None, "more than 3 recipients"
+    if any(e["eff"] != e["r"] for e in routes):
+        return None, "rewritten recipient"
+    route_of = {e["r"]: bname[e["blk"]] for e in routes}
+    route = [route_of.get(r, "D1") for r in order]      # refused before routing: the block does not matter
+    # verdict table: what each check answered per stage
+    verd = {k: {st: "none" for st in STAGES} for k in CH4}
+    per_rcpt = {}
+    for e in evs:
+        if e["e"] != "CheckCall":
+            continue
+        if e["c"] not in cname:
+            return None, "call on a check that is in no visited block"
+        k = cname[e["c"]]
+        if e.get("authres") or e.get("hdr"):
+            pass        # header fields / auth results added by checks are not modelled; verdicts are
+        if e["stage"] == "rcpt":
+            if e["arg"] not in rname:
+                return None, "check shown an address that is no recipient of the message"
+            per_rcpt.setdefault(k, {})[rname[e["arg"]]] = e["v"]
+        else:
+            if verd[k][e["stage"]] not in ("none", e["v"]) or \
+                    (verd[k][e["stage"]] == "none" and e["v"] != "none" and
+                     any(x["e"] == "CheckCall" and cname.get(x["c"]) == k and x["stage"] == e["stage"] and
+                         x["v"] == "none" and x["seq"] < e["seq"] for x in evs)):
+                return None, "verdict of a check is not a function of the stage"
+            verd[k][e["stage"]] = e["v"]
+    only1 = []
+    for k, m in per_rcpt.items():
+        vals = set(m.values())
+        if len(vals) == 1:
+            verd[k]["rcpt"] = vals.pop()
+        elif m.get("r1", "none") != "none" and all(v == "none" for r, v in m.items() if r != "r1"):
+            verd[k]["rcpt"] = m["r1"]
+            only1.append(k)
+        else:
+            return None, "recipient-stage verdicts outside the model (differ per recipient)"
+    na = any(e["e"] == "Cmd" and e["op"] == "bodyNA" for e in evs)
+    cfg_ev = {"e": "Cfg", "seq": 0, "place": {k: sorted(place.get(k, [])) for k in CH4}, "verd": verd,
+              "only1": sorted(only1), "route": route, "path": "na" if na else "atomic", "dmarc": "off",
+              "kind": "pipe", "mod": "off", "mfail": []}
+    out = [cfg_ev]
+    for e in evs:
+        n = {"seq": e["seq"], "e": e["e"]}
+        if e["e"] == "Cmd":
+            n["op"] = "body" if e["op"] == "bodyNA" else e["op"]
+            n["r"] = rname.get(e["r"], "")
+        elif e["e"] == "Ret":
+            n["op"] = "body" if e["op"] == "bodyNA" else e["op"]
+            n["r"], n["res"] = rname.get(e["r"], ""), e["res"]
+        elif e["e"] == "CheckCall":
+            n.update(c=cname[e["c"]], stage=e["stage"], arg=rname.get(e["arg"], ""), v=e["v"], cmd=e["cmd"])
+        elif e["e"] == "TgtCall":
+            if e["tgt"] not in tname:
+                return None, "call on a target of no visited block"
+            n.update(tgt=tname[e["tgt"]], op=e["op"], arg=rname.get(e["arg"], ""), res=e["res"], q=e["q"])
+        else:
+            continue
+        out.append(n)
+    out.append({"seq": (evs[-1]["seq"] if evs else 0) + 1, "e": "End"})
+    return out, None
+
+
+def repo_test_traces(ctx):
+    """The other direction of the binding: run the REPOSITORY'S OWN tests of internal/msgpipeline, unchanged,
+    with the trace hooks compiled in (build tag verif; verif_trace.go / verif_trace_test.go) and validate every
+    message the tests push through a pipeline against CheckRunner.tla (CheckRunnerHookTrace.tla): the tests'
+    own assertions are whatever they are, the C06 predicates are evaluated at every step of what the tests made
+    the pipeline do."""
+    import subprocess
+    d = ctx.sub("repotests")
+    raw = os.path.join(d, "raw.ndjson")
+    tmp = os.path.join(d, "tmp")
+    os.makedirs(tmp, exist_ok=True)
+    env = vlib.goenv()
+    env.update(VERIF_TRACE_OUT=raw, TMPDIR=tmp)
+    p = subprocess.run(["timeout", "600", "go", "test", "-tags", "verif", "-count=1", "-v", "./internal/msgpipeline/"],
+                       cwd=ctx.repo, env=env, stdout=subprocess.PIPE, stderr=subprocess.STDOUT, text=True)
+    if not os.path.exists(raw) or os.path.getsize(raw) == 0:
+        raise vlib.Infra("the repository's msgpipeline tests recorded nothing with the hooks on (rc=%d): %s" % (
+            p.returncode, p.stdout[-1500:]))
+    tests_run = sum(1 for l in p.stdout.splitlines() if l.startswith("=== RUN"))
+    by_key = {}
+    for line in open(raw):
+        e = json.loads(line)
+        by_key.setdefault(e["key"], []).append(e)
+    events, info, skipped = [], {}, {}
+    for k, key in enumerate(sorted(by_key, key=lambda x: by_key[x][0]["seq"])):
+        evs = sorted(by_key[key], key=lambda e: e["seq"])
+        out, why = convert_repo_trace(evs)
+        if out is None:
+            skipped[why] = skipped.get(why, 0) + 1
+            continue
+        t = 3000000 + k
+        for e in out:
+            e["t"] = t
+        events += out
+        info[t] = {"message": key, "events": out, "raw": evs}
+    if not events:
+        raise vlib.Infra("no usable trace from the repository's msgpipeline tests (skipped: %s)" % skipped)
+    # binding self-test: a trace with one corrupted field must not be accepted
+    st_t = None
+    for t, i in info.items():
+        if any(e["e"] == "CheckCall" and e["v"] == "none" and e["stage"] == "sender" for e in i["events"]) and \
+                any(e["e"] == "TgtCall" and e["op"] == "commit" for e in i["events"]):
+            bad = [dict(e, t=3900001) for e in i["events"]]
+            next(e for e in bad if e["e"] == "CheckCall" and e["stage"] == "sender")["v"] = "reject"
+            events += bad
+            st_t = 3900001
+            break
+    verdicts, by_t = ctx.validate(
+        "CheckRunnerHookTrace", None, events, keep=HOOK_KEEP, name="repotests-trace",
+        cfg_text=cfg(n=4, maxr=3, nn=0, scopes=4, dmarcs=("off", "quar"), only1=True, devs=[],
+                     maxdelay=0, tail=TRACE_TAIL, spec="HSpec", kinds=("pipe", "rpipe"), modon=True))
+    ok = drift = nviol = 0
+    for t, recs in sorted(verdicts.items()):
+        if t == st_t:
+            if any(not r["drift"] for r in recs) and not any(r["viol"] for r in recs):
+                raise vlib.Infra("binding self-test failed: a corrupted repo-test trace was accepted")
+            continue
+        viol = sorted(set(v for r in recs for v in r["viol"]))
+        if viol:
+            nviol += 1
+            ctx.violation("the repository's own msgpipeline tests make the pipeline violate %s (message %s)" % (
+                ",".join(viol), info[t]["message"]),
+                {"property": "C06", "repotest": info[t], "violated": viol,
+                 "how": "bin/check C06 --replay <this file> (re-runs the package's tests with the hooks on)"})
+        elif any(not r["drift"] for r in recs):
+            ok += 1
+        else:
+            drift += 1
+            print("DRIFT property=C06 repo-test trace %s (%s) first-unexplained-seq=%s" % (
+                t, info[t]["message"], recs[0]["driftAt"]))
+    ctx.cov["repo_test_traces"] = {
+        "tests_run": tests_run, "go_test_rc": p.returncode,      # a failing test is not our verdict
+        "messages": len(by_key), "events": sum(len(v) for v in by_key.values()),
+        "validated": ok, "drift": drift, "violating": nviol,
+        "skipped": sum(skipped.values()), "skipped_reasons": skipped,
+        "with_checks": sum(1 for i in info.values() if any(e["e"] == "CheckCall" for e in i["events"])),
+        "binding_selftest": "corrupted-field trace rejected" if st_t else "no suitable trace",
+    }
+    if skipped:
+        print("SKIPPED property=C06 repo-test traces outside the model's alphabet: " +
+              "; ".join("%d x %s" % (n, w) for w, n in sorted(skipped.items())))
+    return ok
+
+
 def run(ctx, replay):
+    if replay and "repotest" in json.load(open(replay)):
+        repo_test_traces(ctx)
+        return
     thorough = ctx.tier == "thorough"
     findings = load_findings()
     open_f = {f["match"]["deviation"]: f for f in findings if f.get("status", "open") == "open"}
@@ -313,6 +547,8 @@ def run(ctx, replay):
         print("OBSERVATION property=C06 check states closed by a failed checkStates and used again: "
               "%d call(s) after Close, %d repeated Close" % (use_after_close, double_close))
     ctx.cov["traces_validated_against_impl"] = ok
+    if not replay:
+        ctx.cov["traces_validated_against_impl"] += repo_test_traces(ctx)
     ctx.cov["drift_traces"] = drift
     ctx.cov["known_finding_traces"] = known_n
     ctx.cov["observations"] = {"out_of_scope_rcpt_traces": extra, "calls_after_close": use_after_close,
